@@ -11,10 +11,7 @@ func init() {
 }
 
 func vC17spec() vSpec {
-	if vTier() == 1 {
-		return vSpec{Depth: 3, Width: 2, Kinds: "mlsn", KeyAlpha: "ab-", KeyMin: 1, KeyMax: 1, StrAlpha: "x", StrMin: 1, StrMax: 1, NoListInList: true}
-	}
-	return vSpec{Depth: 2, Width: 2, Kinds: "mlsn", KeyAlpha: "ab-", KeyMin: 1, KeyMax: 1, StrAlpha: "x", StrMin: 1, StrMax: 1, NoListInList: true}
+	return vSpec{Depth: vP("depth", 2, 3), Width: vP("width", 2, 2), Kinds: "mlsn", KeyAlpha: "ab-", KeyMin: 1, KeyMax: 1, StrAlpha: "x", StrMin: 1, StrMax: 1, NoListInList: true}
 }
 
 // read-only queries leave the receiver exactly as it was
@@ -53,11 +50,8 @@ func H_C17_pure_query() {
 // indexed paths with sub-key filters over lists of maps
 func H_C17_pure_indexed() {
 	vResetDecOpts()
-	d := 5
-	if vTier() == 1 {
-		d = 6
-	}
-	m := vNondetMap(vSpec{Depth: d, Width: 2, MapWidth: 1, Kinds: "mls", KeyAlpha: "a", KeyMin: 1, KeyMax: 1, StrAlpha: "xy", StrMin: 1, StrMax: 1, NoListInList: true})
+	d := vP("depth", 5, 6)
+	m := vNondetMap(vSpec{Depth: d, Width: vP("width", 2, 2), MapWidth: 1, Kinds: "mls", KeyAlpha: "a", KeyMin: 1, KeyMax: 1, StrAlpha: "xy", StrMin: 1, StrMax: 1, NoListInList: true})
 	mark := vMark(m)
 	sub := []string{"a:x", "!a:x", "a:*"}[vChoose(3)]
 	switch vChoose(5) {
